@@ -42,3 +42,9 @@ Theorem C04_regions : forall sz, accepted sz ->
   sz < NBlockBitmap fs * NBITBLOCK /\ (NBlockBitmap fs - 1) * NBITBLOCK <= sz)%N.
 Proof. exact layout_regions. Qed.
 Print Assumptions C04_regions.
+
+(* the block size, the inode slots, the pointers per block, the directory entry size, the inode and bitmap geometry and the root number used by abs_disk / wf_disk are the constants of the code (Gen/GenConsts.v is regenerated from /repo and its dependencies on every run) *)
+From V Require Proofs.ConstsConform.
+Theorem C04_disk_constants_conform : V.Proofs.ConstsConform.disk_constants_conform.
+Proof. exact V.Proofs.ConstsConform.disk_constants_ok. Qed.
+Print Assumptions C04_disk_constants_conform.
